@@ -146,6 +146,8 @@ def judgeCrash (line : String) : String :=
     | _, _ => "? ERR bad crash header"
   | parts => s!"? ERR bad crash line ({parts.length} parts)"
 
+initialize scanCache : IO.Ref (Option (String × Except String DB)) ← IO.mkRef none
+
 partial def loop (h : IO.FS.Stream) (out : IO.FS.Stream) : IO Unit := do
   let line ← h.getLine
   if line.isEmpty then return ()
@@ -160,8 +162,26 @@ partial def loop (h : IO.FS.Stream) (out : IO.FS.Stream) : IO Unit := do
     out.putStrLn (judgeCrash l)
   else if l.startsWith "FAULT " then
     out.putStrLn (judgeFault l)
+  else if l.startsWith "TICK " then
+    -- real-time observations of the background manager carry their own verdict (`TK=0|1`, computed by
+    -- the harness from what it saw): pass it on under the line's sequence number
+    let seq := ((l.splitOn " ").getD 1 "?")
+    let tk := match (l.splitOn " TK=") with
+      | [_, v] => (v.splitOn " ").headD "?"
+      | _ => "?"
+    out.putStrLn (if tk == "0" || tk == "1" then s!"{seq} TK={tk}" else s!"{seq} ERR tick line without verdict")
   else if l.startsWith "SCAN " then
-    out.putStrLn (ScanJudge.judge l)
+    -- consecutive drains of one collection carry the same build history: replay it once
+    let cached ← scanCache.get
+    let hist := ScanJudge.historyOf l
+    let res : Except String DB ← match hist, cached with
+      | some h', some (h0, r0) => if h' == h0 then pure r0 else pure (ScanJudge.replay h')
+      | some h', none => pure (ScanJudge.replay h')
+      | none, _ => pure (.error "no history")
+    match hist with
+    | some h' => scanCache.set (some (h', res))
+    | none => pure ()
+    out.putStrLn (ScanJudge.judgeWith (fun _ => res) l)
   else if !l.isEmpty then
     out.putStrLn (judge l)
   loop h out
